@@ -641,6 +641,8 @@ pub mod verif {
     pub nursery_bytes: usize,
     pub intern_len: usize,
     pub temp_roots: usize,
+    /// string objects the allocator owns (every one of them should be an entry of the intern table)
+    pub string_objects: usize,
   }
 }
 
@@ -659,6 +661,12 @@ impl Allocator {
       nursery_bytes: self.nursery_obj_heap.iter().map(|h| h.size()).sum(),
       intern_len: self.intern_cache.len(),
       temp_roots: self.temp_roots.len(),
+      string_objects: self
+        .obj_heap
+        .iter()
+        .chain(self.nursery_obj_heap.iter())
+        .filter(|h| h.kind() == crate::object::ObjectKind::String)
+        .count(),
     }
   }
 
